@@ -249,6 +249,27 @@ fn mesh2d_case(xn: &[f64], yn: &[f64], nvars: usize, pat: usize, exact: bool) ->
         ensure!(same(m.trapezium(v), want), "2-D trapezium({}) = {} expected the cell sum {}", v, m.trapezium(v), want);
         ensure!(same(m.square_trapezium(v), wsq), "square_trapezium({}) = {} expected {}", v, m.square_trapezium(v), wsq);
     }
+    // signed data whose corner values CANCEL in some cells (1, -1, -2, 2 ...): the integral of the square does not vanish there
+    {
+        let cb = |i: usize, j: usize| (if (i + j) % 2 == 0 { 1.0 } else { -1.0 }) * (1.0 + ((i / 2 + j / 2) % 2) as f64);
+        let mut mc = Mesh2D::<f64>::new(Vector::create(xn.to_vec()), Vector::create(yn.to_vec()), 1);
+        for i in 0..nx {
+            for j in 0..ny {
+                mc[(i, j)][0] = cb(i, j);
+            }
+        }
+        let (mut want, mut wsq) = (0.0, 0.0);
+        for i in 0..nx - 1 {
+            let dx = xn[i + 1] - xn[i];
+            for j in 0..ny - 1 {
+                let dy = yn[j + 1] - yn[j];
+                want += 0.25 * dx * dy * (cb(i, j) + cb(i + 1, j) + cb(i, j + 1) + cb(i + 1, j + 1));
+                wsq += 0.25 * dx * dy * (cb(i, j).powi(2) + cb(i + 1, j).powi(2) + cb(i, j + 1).powi(2) + cb(i + 1, j + 1).powi(2));
+            }
+        }
+        ensure!(same(mc.trapezium(0), want), "2-D trapezium of checkerboard data = {} expected the cell sum {}", mc.trapezium(0), want);
+        ensure!(same(mc.square_trapezium(0), wsq), "square_trapezium of checkerboard data (cells whose corner values cancel) = {} expected {}", mc.square_trapezium(0), wsq);
+    }
     // apply + exactness on a bilinear integrand f = (1 + 2x)(3 - y)
     let mut mb = Mesh2D::<f64>::new(Vector::create(xn.to_vec()), Vector::create(yn.to_vec()), 2);
     mb.apply(&|x, y| (1.0 + 2.0 * x) * (3.0 - y), 1);
